@@ -10,7 +10,7 @@ CONFIG = {
     "level_note": "Trusted: the ownership model's reading of std (HashMap/Vec/BTreeSet moves never move Box<str> buffers; derive(Clone) is field-wise) and of mownstr 0.3.1 (Clone of a borrowed MownStr copies the pointer); allocation ids are never reused in the model (a real allocator may reuse an address; a pointer into released memory is dangling all the same); tools/extractors/c10.py (exact-text recognition of ensure_index, the two Clone shapes, from_term_ref, ensure_owned; anything else fails closed); the hook's pointer arithmetic. A store whose audit reports an outside pointer is never read by the checker (no UB inside the check): there the evidence is the model's prediction + the audit vector. Lookups in the model compare key CONTENT (Term::eq), hashing is abstracted. clone_independent states content equality modulo Term::eq (language-tag case), exact equality would need key uniqueness (C01's I2) carried through the heap model. 16-bit index-full is modelled (key dropped again) but exercised only by C01. Miri/ASan are not part of the verdict. No native_decide. Known finding while unrepaired: C10-derive-clone-borrows-original.",
     "tables": ["clone_kind"],
     "lean_targets": ["SophiaProofs.Props.C10", "SophiaProofs.Audit.C10"],
-    "theorems": ["winv_init", "sc_preserved", "winv_self_contained", "audit_clean_self_contained", "no_dangling", "read_after_history", "clone_same_content", "clone_independent", "clone_independent_run", "derive_clone_dangles", "derive_not_safe", "c10_holds", "c10_verdict", "unwrap_unchecked_safe", "unwrap_unchecked_safe_gen", "ensure_owned_sound"],
+    "theorems": ["winv_init", "sc_preserved", "winv_self_contained", "audit_clean_self_contained", "no_dangling", "read_after_history", "clone_same_content", "clone_same_quads", "clone_independent", "clone_independent_run", "derive_clone_dangles", "derive_not_safe", "c10_holds", "c10_verdict", "unwrap_unchecked_safe", "unwrap_unchecked_safe_gen", "ensure_owned_sound"],
     "native_ok": [],
     "trivial_re": r"^$",
     "rule": "one request = one self-contained history over up to six named stores: the kernel-checked 3-step witness; per store type (Light/Fast x dataset/graph x u32/u16, bare SimpleTermIndex u32/u16) scripted patterns (insert 100, clone, drop original, read clone; clone dropped first; swap then drop either side; clone_from over a non-empty target; mem::take / Box / move / chains of clones losing their links one by one) and growth histories crossing the hash table's 2^k thresholds before and after cloning on original and clone (100..600 terms quick, ..2000 thorough; literal / IRI / owned quoted-triple / language-tagged keys); plus random histories (6..32 ops quick, ..60 thorough) over ins/rem/ens/fill/clone/clone_from/drop/swap/mv/box/take/all with terms from small colliding alphabets (empty strings, nested quoted triples, case-variant tags); after EVERY op, for EVERY live store: audit vector (hook) and content digest (only stores safe to read) vs. the model, content vs. a value-semantics specification; distinct = distinct histories",
